@@ -67,6 +67,34 @@ def rc4 (key data : Bytes) : Except Err Bytes :=
 
 /-! ## primitives -/
 
+/-- The character classes of RFC 3454 used by SASLprep (Python's `stringprep` module) and Unicode
+    3.2 NFKC (`unicodedata.ucd_3_2_0.normalize`): trusted tables, abstract here. -/
+structure SaslTables where
+  c12 : Nat → Bool            -- in_table_c12: non-ASCII space characters
+  b1 : Nat → Bool             -- in_table_b1: commonly mapped to nothing
+  prohibited : Nat → Bool     -- any of `_PROHIBITED` (see Gen: SASL_PROHIBITED_TABLES) or in_table_a1
+  d1 : Nat → Bool             -- in_table_d1: RandALCat
+  d2 : Nat → Bool             -- in_table_d2: LCat
+  nfkc : List Nat → List Nat
+
+/-- `_saslprep.saslprep(data)` (repaired: the empty result is returned instead of `data[0]`
+    raising IndexError); `none` = PDFValueError. -/
+def saslprepModel (T : SaslTables) (data : List Nat) : Option (List Nat) :=
+  -- step 1: map
+  let mapped := (data.filter (fun c => ! T.b1 c)).map (fun c => if T.c12 c then SASL_SPACE else c)
+  -- step 2: normalise
+  let norm := T.nfkc mapped
+  match norm.head?, norm.getLast? with
+  | some first, some last =>
+    if T.d1 first then
+      if ! T.d1 last then none                                    -- failed bidirectional check
+      else if norm.any (fun c => T.prohibited c || T.d2 c) then none
+      else some norm
+    else
+      if norm.any (fun c => T.prohibited c || T.d1 c) then none
+      else some norm
+  | _, _ => some norm                                             -- everything mapped to nothing
+
 structure Prims where
   md5 : Bytes → Bytes
   sha256 : Bytes → Bytes
@@ -76,8 +104,8 @@ structure Prims where
   aesDec : Bytes → Bytes → Bytes → Bytes
   /-- `Cipher(AES(key), CBC(iv)).encryptor()`: `update(data) + finalize()` -/
   aesEnc : Bytes → Bytes → Bytes → Bytes
-  /-- `_saslprep.saslprep` on code points; `none` = PDFValueError (prohibited / bidi) -/
-  saslprep : List Nat → Option (List Nat)
+  /-- tables behind `_saslprep.saslprep` -/
+  sasl : SaslTables
 
 /-! ## small Python helpers -/
 
@@ -261,7 +289,7 @@ def passwordHash (P : Prims) (r : Int) (pw salt vec : Bytes) : Bytes :=
 def normalizePassword (P : Prims) (r : Int) (pw : List Nat) : Except Err Bytes :=
   if r = 6 then
     if pw.isEmpty then .ok []
-    else match P.saslprep pw with
+    else match saslprepModel P.sasl pw with
       | none => .error .passwordIncorrect
       | some q => match encodeUtf8 q with
         | some b => .ok (b.take UTF8_PASSWORD_MAX)
